@@ -68,8 +68,9 @@ def canon_op(op) -> dict:
 
 
 def schemas_of(op) -> dict:
-    """tag -> inlined `schema` of every offered parameter that carries a tag"""
-    return {p.definition["x-tag"]: p.definition.get("schema") for p in op.iter_parameters() if "x-tag" in p.definition}
+    """(path, method, tag) -> inlined `schema` of every offered parameter that carries a tag"""
+    return {(op.path, op.method, p.definition["x-tag"]): p.definition.get("schema")
+            for p in op.iter_parameters() if "x-tag" in p.definition}
 
 
 def canon_item(r) -> dict:
@@ -296,8 +297,8 @@ class Judge:
         sh_ps = world.oracle.params(home, item.get("parameters", []))
         if op_ps is None or sh_ps is None:
             return  # malformed entry somewhere: only the Ok/Err clause applies
-        op_c = [G.canon_param_oracle(p) for _, p in op_ps]
-        sh_c = [G.canon_param_oracle(p) for _, p in sh_ps]
+        op_c = [G.canon_param_oracle(p) for _, p, _ in op_ps]
+        sh_c = [G.canon_param_oracle(p) for _, p, _ in sh_ps]
         self.judge_reqs.append(("judge", {"op": op_c, "shared": sh_c, "offered": o}))
         self.pending.append((o, op_c, sh_c, accesses, route, od, dict(schemas), op_ps + sh_ps))
 
@@ -344,13 +345,15 @@ class Judge:
                         chk.violation(f"C08:{route}:security-parameters-differ", f"security parameters in {name} differ",
                                       self.replay(accesses, {"offered": got, "expected": sec[loc]}))
             # references inside a parameter are resolved relative to the file the parameter lives in
-            for home, p in homes:
-                t = p.get("x-tag")
+            for home, p, hops in homes:
+                t = (o["path"], o["method"], p.get("x-tag"))
                 exp = world.oracle.expected_schema(home, p)
+                if hops + 1 > 8:
+                    continue  # beyond the depth limit the code deliberately stops inlining
                 if t in schemas and isinstance(exp, dict) and "$ref" not in json.dumps(exp) and schemas[t] != exp:
                     chk.violation(f"C08:{route}:parameter-schema-reference-resolved-elsewhere",
                                   "a schema reference inside a parameter was not resolved in that parameter's file",
-                                  self.replay(accesses, {"tag": t, "offered": schemas[t], "expected": exp}))
+                                  self.replay(accesses, {"tag": list(t), "offered": schemas[t], "expected": exp}))
         self.pending, self.judge_reqs = [], []
 
     # -- look-ups ----------------------------------------------------------------------------------------------------
@@ -419,7 +422,7 @@ class Judge:
                     if want is not None and "ok" in want and t in fresh_schemas and fresh_schemas[t] != sch:
                         chk.violation(sig, f"{route} returns {label} with a parameter schema resolved differently than "
                                       "in the operation iteration offers",
-                                      self.replay(accesses[: n + 1], {"tag": t, "lookup": sch, "iteration": fresh_schemas[t]}))
+                                      self.replay(accesses[: n + 1], {"tag": list(t), "lookup": sch, "iteration": fresh_schemas[t]}))
 
 
 # ---- access sequences ----------------------------------------------------------------------------------------------
